@@ -12,6 +12,7 @@ import EaselModel.Sqio.MsaSeqBlock
 import EaselModel.Sqio.MsaSeqSto
 import EaselModel.Sqio.MsaSeqPhy
 import EaselModel.Sqio.MsaSeqAll
+import EaselModel.Sqio.EmblSeqTotal
 /-! # C02 — sequence-file input is total: any bytes give a normal outcome
 
 Property theorems only (proofs are glue on `Sqio/Refine.lean`, `Sqio/NoFault.lean`).
@@ -205,6 +206,18 @@ theorem read_linebased_total (a : Ascii) (sq : Sq) (w : LWF a) (hf : LineFmt a) 
     (read a sq).1.fmt = a.fmt ∧ (read a sq).1.file = a.file ∧ (read a sq).1.inmap = a.inmap :=
   EmblTotal.read_linebased_total a sq w hf tok hm hmap
 
+
+open EaselModel.Sqio.BodySpec EaselModel.Sqio.LineSpec EaselModel.Sqio.EmblAll in
+/-- **`sqascii_ReadSequence` on the line-based formats (EMBL / UniProt / GenBank / DDBJ) is total for EVERY byte string and every block
+    size** (round 6b): `skip_header` (the header scanners with nothing stored) + the residue loop + the record end: `eslOK`, `eslEOF` or
+    `eslEFORMAT` with a message, no exception, never `fault`; the handle stays a line-mode handle on the same file. No hypothesis on the
+    bytes, on `B`, or on the `ESL_SQ`'s allocations. -/
+theorem readSequence_linebased_total (a : Ascii) (sq : Sq) (w : LWF a) (hf : LineFmt a) (tok : Fold.Track.Ok a.trk) (hm : a.inmap.size = 128)
+    (hmap : MapOk a.inmap (mapOf a sq)) :
+    ((readSequence a sq).2.2 = .ok ∨ (readSequence a sq).2.2 = .eof ∨ (readSequence a sq).2.2 = .eformat) ∧
+    ((readSequence a sq).2.2 = .eformat → (readSequence a sq).1.haveErr = true) ∧ (readSequence a sq).1.exc = a.exc ∧ LWF (readSequence a sq).1 ∧
+    (readSequence a sq).1.fmt = a.fmt ∧ (readSequence a sq).1.file = a.file ∧ (readSequence a sq).1.inmap = a.inmap :=
+  EmblTotal.readSequence_linebased_total a sq w hf tok hm hmap
 
 open EaselModel.Sqio.BodySpec EaselModel.Sqio.EmblAll in
 /-- **The whole reader of the line-based formats is total, for EVERY byte string and EVERY block size `B ≥ 1`**: from `esl_sqfile_Open` on
